@@ -225,6 +225,7 @@ class Walk:
     # ------------------------------------------------------------ object ops
     def tmpl_for(s, cls, on_token, private, uid):
         ck = s.ck; a = {'CKA_CLASS': ck[cls], 'CKA_TOKEN': on_token, 'CKA_PRIVATE': private, 'CKA_LABEL': uid}
+        if s.rnd.random() < 0.1: a['CKA_DESTROYABLE'] = False
         if cls == 'CKO_DATA':
             a['CKA_APPLICATION'] = s.rnd.choice([b'', b'app1', b'app2']); a['CKA_VALUE'] = s.rnd.choice([b'', b'v1', s.rnd.randbytes(20)])
         elif cls == 'CKO_SECRET_KEY':
@@ -288,6 +289,13 @@ class Walk:
         st = STATE_NAMES[s.m.state(se)]; s.H('destroy', se.h, o.uid, h)
         r = s.c('C_DestroyObject', s=se.h, o=h); live = o.alive and o.handles[h]
         allowed = live and s.m.can_write(se, o.on_token, o.private)
+        if allowed and o.attrs.get('CKA_DESTROYABLE') is False:
+            # the object cannot be destroyed (CKA_DESTROYABLE false): the refusal leaves the object AND its handles alive, which the handle monitor verifies after this call
+            s.stats['neg'] += 1; s.cov('C08', ('destroy-nondestroyable', st, okind(o)))
+            if r['rv'] == 0:
+                s.F('C08', f'C_DestroyObject|{okind(o)},CKA_DESTROYABLE=false|{st}|destroyed', 'an object with CKA_DESTROYABLE false was destroyed', uid=o.uid); o.alive = False
+                for k in o.handles: o.handles[k] = False
+            return
         if live and not allowed:
             s.stats['neg'] += 1; s.cov('C01', ('destroy', st, okind(o)))
             if r['rv'] == 0: s.F('C01', f'C_DestroyObject|{okind(o)}|{st}|destroyed', 'a forbidden destruction succeeded', uid=o.uid)
